@@ -597,8 +597,11 @@ def r12_9(ctx, rc):
 def r12_8(ctx, rc):
     """The cache file of the last committed build survives a failed write
     of the next one (R2.9): without it clean has nothing to go by."""
-    from .c02 import r2_9
+    from .c02 import r2_9, r2_8
     r2_9(ctx, rc)
+    # ... and a rolled-back build leaves nothing the restored cache does
+    # not know about: the undo sets and questions of rollback (R2.8)
+    r2_8(ctx, rc)
 
 
 def r12_10(ctx, rc):
